@@ -372,6 +372,8 @@ class Real:
             out = outcome("none", lambda: st[k].__setitem__(f, v))
         elif op == "Append":
             out = outcome("none", lambda: st[k].append(v))
+        elif op == "WriteBack":
+            out = outcome("none", lambda: st.__setitem__(k, st[k]))
         elif op == "Get":
             out = outcome("value", lambda: st[k])
         elif op == "CachedGet":
